@@ -262,6 +262,9 @@ def c10(tier):
     js += with_witness(J("valid_allwords", "C10_edges.c", ["-DVALID"], unwind=17, est=5, bound="all 2^64 words"))
     js += with_witness(J("mode_allwords", "C10_edges.c", ["-DMODE"], unwind=17, est=5, bound="all 2^64 words with mode != 2"))
     js += with_witness(J("scale_edge", "scale_glue.c", [], unwind=3, est=5, stubs={"latLng": ["edgeLengthRads"]}, bound="all doubles, all error codes"))
+    BST = {"h3Index": ["isPentagon", "_h3ToFaceIjk"], "faceijk": ["_faceIjkPentToCellBoundary", "_faceIjkToCellBoundary"], "vertex": ["vertexNumForDirection"]}
+    js += with_witness(J("glue_edgeBoundary", "C10_boundary_glue.c", [], unwind=14, est=10, stubs=BST, witness_expect=["invalid direction", "edge boundary"], bound="any edge word, any start vertex, any distortion pattern"))
+    js += with_witness(J("sum_edge", "sum_glue.c", ["-DEDGE"], unwind=12, us={"edgeLengthRads.0": 4}, est=20, stubs={"directedEdge": ["directedEdgeToBoundary"], "latLng": ["greatCircleDistanceRads"]}, bound="edge boundaries of 2 or 3 points, segment lengths k*2^-20, any error"))
     for r in ALLRES:
         js.append(J("origins_r%d" % r, "C10_edges.c", ["-DORIGINS", "-DRES=%d" % r], unwind=17, est=5, bound="all valid cells of res %d" % r))
         t = "quick" if r <= 6 else "thorough"
@@ -403,6 +406,7 @@ def c11(tier):
                          stubs={"h3Index": ["isPentagon"], "vertex": ["directionForVertexNum", "vertexNumForDirection"], "algos": ["h3NeighborRotations", "directionForNeighbor"]},
                          bound="any cell word, any component values"))
     js += with_witness(J("glue_isValidVertex", "C11_glue.c", ["-DGLUE_VALID"], unwind=17, est=5, stubs={"vertex": ["cellToVertex"]}, bound="all 2^64 words x any canonical index / error"))
+    js += with_witness(J("glue_vertexToLatLng", "C11_glue.c", ["-DGLUE_V2LL"], unwind=14, est=5, stubs={"h3Index": ["isPentagon", "_h3ToFaceIjk"], "faceijk": ["_faceIjkPentToCellBoundary", "_faceIjkToCellBoundary"]}, bound="any vertex word with an in-range vertex number, any distortion pattern"))
     js += with_witness(J("glue_cellToVertexes", "C11_glue.c", ["-DGLUE_VERTEXES"], unwind=10, est=5, stubs={"vertex": ["cellToVertex"], "h3Index": ["isPentagon"]}, bound="any cell word, any per-vertex results"))
     for r in range(1, 16):
         t = "quick" if r <= 8 or r == 15 else "thorough"
@@ -556,6 +560,10 @@ def c19(tier):
 def c08(tier):
     js = []
     js += with_witness(J("scale_area", "scale_glue.c", ["-DAREA"], unwind=3, est=20, stubs={"latLng": ["cellAreaRads2"]}, bound="stub values k*2^s, all error codes"))
+    BST = {"h3Index": ["isPentagon", "_h3ToFaceIjk"], "faceijk": ["_faceIjkPentToCellBoundary", "_faceIjkToCellBoundary"], "vertex": ["vertexNumForDirection"]}
+    js += with_witness(J("glue_cellBoundary", "C10_boundary_glue.c", ["-DCELL"], unwind=14, est=10, stubs=BST, bound="any cell word, any distortion pattern"))
+    js += with_witness(J("sum_area", "sum_glue.c", ["-DMAXN=7", "-DKMAX=63"], unwind=12, us={"cellAreaRads2.0": 12}, est=100, stubs={"h3Index": ["cellToLatLng", "cellToBoundary"], "latLng": ["triangleArea"]}, bound="boundaries of 5-7 points, triangle areas k*2^-20 with k <= 63, any error"))
+    js.append(J("sum_area_full", "sum_glue.c", [], unwind=12, us={"cellAreaRads2.0": 12}, est=900, tier="thorough", timeout=3000, core=False, stubs={"h3Index": ["cellToLatLng", "cellToBoundary"], "latLng": ["triangleArea"]}, bound="boundaries of 5-10 points, triangle areas k*2^-20 with k <= 4096, any error"))
     js += up7_lemma(10)
     CS = {"faceijk": ["_hex2dToGeo"], "vec2d": ["_v2dIntersect", "_v2dAlmostEquals"]}
     for r in (0, 1, 2, 3):
